@@ -90,11 +90,59 @@ def rust_fields(kind, fts, raw, keep):
     return ('', '')
 
 
+# structs whose LAST field may be unsized in a way that is not the bare parameter: a wrapper around a `?Sized`
+# parameter, the parameter after other parameters, `?Sized` written in the where-clause, an ignored field in between
+UNSIZED_TAILS = [
+    ('<U: ?Sized>', '', '{ a: u8, b: Tl<U> }', 'X { a: 1, b: Tl(%s) }'),
+    ('<U: ?Sized>', '', '( u8, Tl<U> );', 'X(1, Tl(%s))'),
+    ('<T, U: ?Sized>', '', '{ a: T, #[debug(ignore)] m: u8, b: Tl<U> }', 'X { a: 3u16, m: 0, b: Tl(%s) }'),
+    ('<U>', ' where U: ?Sized', '{ a: u8, b: Tl<U> }', 'X { a: 1, b: Tl(%s) }'),
+    ('<U: ?Sized>', '', '{ a: u8, b: U }', 'X { a: 1, b: %s }'),
+    ('<U: ?Sized>', '', '{ a: u8, #[debug(transparent)] b: Tl<U> }', 'X { a: 1, b: Tl(%s) }'),
+]
+
+
+def unsized_modules():
+    out = []
+    for k, (g, wh, body, val) in enumerate(UNSIZED_TAILS):
+        for mode in ('attr', 'derive'):
+            cid = 10 ** 6 + 2 * k + (mode == 'derive')
+            head = '#[::derive_ex::derive_ex(Debug)]' if mode == 'attr' else '#[derive(::derive_ex::Ex)] #[derive_ex(Debug)]'
+            tuple_ = body.startswith('(')
+            decl = 'pub struct X%s%s %s' % (g, wh if not tuple_ else '', body if not tuple_ else body[:-1] + wh + ';')
+            clean = decl.replace('#[debug(ignore)] m: u8, ', '').replace('#[debug(transparent)] ', '')
+            import re as _re
+            if tuple_:
+                clean = _re.sub(r'(\(|,) ', r'\1 pub ', clean, count=0)
+            else:
+                clean = clean[:clean.index('{')] + _re.sub(r'(\{|,) (\w+):', r'\1 pub \2:', clean[clean.index('{'):])
+            tval = val.replace('m: 0, ', '')
+            transparent = 'transparent' in body
+            ga = g.count(',') + 1
+            turbo = '::<u16, _>' if ga == 2 else ''
+            src = ['#[derive(Debug)] pub struct Tl<U: ?Sized>(pub U);', head + ' ' + decl,
+                   'pub mod twin { use super::*; #[derive(Debug)] %s }' % clean, 'pub fn run() {']
+            for si, spec in enumerate(SPECS):
+                a = val % '[1u8, 2]'
+                t = ('Tl([1u8, 2])' if transparent else 'twin::' + (tval % '[1u8, 2]'))
+                # by value (sized instantiation) and through Box<X<.., [u8]>> (unsized instantiation)
+                src.append('    { let x = %s; let t = %s; println!("%d\\tv%d\\t{}", format!("%s", x) == format!("%s", t)); }'
+                           % (a, t, cid, si, spec, spec))
+                bt = 'Box<X<%s[u8]>>' % ('u16, ' if ga == 2 else '')
+                tt = ('Box<Tl<[u8]>>' if transparent else 'Box<twin::X<%s[u8]>>' % ('u16, ' if ga == 2 else ''))
+                src.append('    { let x: %s = Box::new(%s); let t: %s = Box::new(%s); println!("%d\\tu%d\\t{}", '
+                           'format!("%s", x) == format!("%s", t)); }' % (bt, a, tt, t, cid, si, spec, spec))
+            src.append('}')
+            text = head.replace('::derive_ex::', '') + ' ' + decl
+            out.append((cid, '\n'.join(src), text, 2 * len(SPECS)))
+    return out
+
+
 class C10(Prop):
     pid = 'C10'
     tag = 'body of the Debug impl'
     rule = ('structs: named/tuple with 0-3 fields x ALL subsets of ignored fields x each transparent choice (also written `transparent, ignore` on one field), two transparent fields (rejected), unit; enums: random '
-            'mixes of variant kinds with ignored / transparent fields; raw identifiers; generic parameter; field types i32, f64, '
+            'mixes of variant kinds with ignored / transparent fields; raw identifiers; generic parameter; hand-written structs with a possibly-unsized last field (wrapper around a `?Sized` parameter, after other parameters, `?Sized` in the where-clause), formatted by value and through Box<X<[u8]>>; field types i32, f64, '
             '&str, Option<u8>, a nested struct, T; both entry points; compiled next to a twin carrying #[derive(Debug)] with the '
             'ignored fields deleted (or the transparent field alone) and compared under 11 format specs (alternate, width, '
             'fill/alignment, sign, precision, hex flags); non-trivial = some field ignored or transparent, or an enum')
@@ -179,6 +227,13 @@ class C10(Prop):
                                % (r.cid, vi, si, spec, rpath, real, ref))
             src.append('}')
             mods.append(l2.Module(r.cid, '\n'.join(src), r))
+        class _Lit:
+            def __init__(self, text, n):
+                self.text, self.meta = text, dict(raw=False, nontrivial=True, vs=[None] * 0, n_expected=n)
+            def input_text(self):
+                return self.text
+        for cid, src, text, n in unsized_modules():
+            mods.append(l2.Module(cid, src, _Lit(text, n)))
         nb = 8
         batches = [('c10_%d' % k, mods[k::nb]) for k in range(nb)]
         exes = l2.compile_parallel(batches, prelude=PRELUDE)
@@ -196,7 +251,7 @@ class C10(Prop):
             got = obs.get(str(mo.cid), [])
             n_obs += len(got)
             bad = [g for g in got if g[1] != 'true']
-            if bad or len(got) != len(SPECS) * len(r.meta['vs']):
+            if bad or len(got) != r.meta.get('n_expected', len(SPECS) * len(r.meta['vs'])):
                 failures.append(dict(**{'class': 'raw-identifier-printed-with-prefix' if r.meta['raw'] else 'debug-output-differs',
                                         'mode': 'format'}, input=r.input_text(),
                                      expected='same text as the std-derived twin under ' + ', '.join(
